@@ -68,7 +68,8 @@ pub const SGR: &[&str] = &[
     "", "0", "1", "2", "3", "4", "7", "22", "23", "24", "27", "30", "31", "37", "39", "40", "42", "47", "49", "90", "97",
     "100", "104", "107", "38;5;100", "38;5;7", "38;5;12", "48;5;255", "48;2;1;2;3", "38;2;255;0;128", "1;31;44", "38:5:9",
     "48:2:9:8:7", "38;5", "38;2;1;2", "38;5;256", "48;2;1;2;256", "38", "5", "8", "21", "58;5;1", "1;2", "3;4;7", "0;1",
-    "22;23;24;27", "38;7;1", "38:5", "38:2:1:2:3:4", "4:3", "39;49",
+    "22;23;24;27", "38;7;1", "38:5", "38:2:1:2:3:4", "4:3", "39;49", "48;9;1", "48;0;99", "48;7;1;31", "38;9;99;1", "48;3;4;7",
+    "38;0;1;4", "48;9;99", "1;48;6;3;44", "23;27", "23", "22;22", "24;24;4", "27;7;27", "21;1", "5;1;31", "0;10;1;33", "4;21;42",
 ];
 
 pub struct Feat {
@@ -501,9 +502,19 @@ pub fn idiom_n(r: &mut Rng, d: Dim, out: &mut Vec<u8>, k: u64) {
                 out.extend(format!("\x1b[{t};{bt}r").as_bytes());
                 let row = if r.chance(1, 2) { bt + 1 + r.below(u64::from(d.rows) - bt) } else { 1 + r.below(t) };
                 out.extend(format!("\x1b[{row};1H").as_bytes());
-                let fin = *r.pick(&['M', 'L', 'S', 'T', 'M', 'L']);
-                let p = param(r, d);
-                out.extend(format!("\x1b[{p}{fin}").as_bytes());
+                if r.chance(1, 3) {
+                    // cursor movement that starts outside the region must ignore its margins
+                    let fin = *r.pick(&['A', 'B', 'E', 'F', 'd', 'A', 'F']);
+                    let p = *r.pick(&["", "1", "2", "3", "99", "65535"]);
+                    out.extend(format!("\x1b[{p}{fin}").as_bytes());
+                    if r.chance(1, 3) {
+                        out.extend(*r.pick(&[&b"\x1bM"[..], b"\n", b"\x1bD", b"\x1bE"]));
+                    }
+                } else {
+                    let fin = *r.pick(&['M', 'L', 'S', 'T', 'M', 'L']);
+                    let p = param(r, d);
+                    out.extend(format!("\x1b[{p}{fin}").as_bytes());
+                }
                 if r.chance(1, 2) {
                     out.extend(b"\n\n");
                 }
@@ -726,14 +737,28 @@ pub fn fam_text(r: &mut Rng) -> Case {
     let f = Feat { alt: r.chance(1, 6), ..Feat::plain() };
     let b = gen_stream_n(r, d, 12, &f);
     p_lines(r, &b, &mut lines);
-    if cap > 0 && r.chance(1, 3) {
+    let mut wide_view = 0u64;
+    if cap > 0 && r.chance(1, 4) {
+        // rows scrolled off at the old width, then a narrower (or wider) screen and a scrolled view:
+        // the view mixes row widths
+        let mut pre = vec![];
+        for i in 0..(u64::from(d.rows) + 1 + r.below(3)) {
+            pre.extend(format!("{}", "abcdefghijklmnopqrstuvwxyz0123456789".chars().cycle().skip(i as usize).take(usize::from(d.cols).min(36)).collect::<String>()).as_bytes());
+            pre.extend(b"\r\n");
+        }
+        lines.push(format!("P {}", hex(&pre)));
+        let nc = if r.chance(2, 3) { 1 + r.below(u64::from(d.cols)) } else { u64::from(d.cols) + 1 + r.below(3) };
+        lines.push(format!("SIZE {} {}", d.rows, nc));
+        lines.push(format!("SB {}", 1 + r.below(3)));
+        wide_view = u64::from(d.cols) + 3;
+    } else if cap > 0 && r.chance(1, 3) {
         lines.push(format!("SB {}", r.below(4)));
     }
     lines.push("DUMP".into());
     lines.push("TEXT".into());
     for _ in 0..3 {
         let s = r.below(u64::from(d.cols) + 3);
-        let w = r.below(u64::from(d.cols) + 3);
+        let w = r.below(u64::from(d.cols) + 3).max(wide_view);
         lines.push(format!("ROWS {s} {w}"));
     }
     lines.push(format!("ROWS 0 {}", d.cols));
@@ -761,6 +786,18 @@ pub fn fam_chunk(r: &mut Rng) -> Case {
     if r.chance(1, 4) {
         idiom_n(r, d, &mut b, 85);
     }
+    let policy = if r.chance(1, 4) { 1 } else { 0 };
+    if policy == 1 {
+        // the callback applies the request at once: what follows in the same chunk must see the new size
+        let nr = 1 + r.below(8);
+        let nc = 1 + r.below(12);
+        b.extend(format!("\x1b[8;{nr};{nc}t").as_bytes());
+        b.extend(*r.pick(&[&b"\x1b[8;5t"[..], b"\x1b[r", b"\x1b[8t", b"\x1b[2r", b"\x1b[999;999Hx", b"\x1b[8;;7t"]));
+        if r.chance(1, 2) {
+            b.extend(b"\n\n\n\n\n\n\n\nz");
+        }
+    }
+    lines[0] = format!("NEW {} {} {} {}", d.rows, d.cols, cap, policy);
     let mode = if r.chance(1, 6) { 3 } else { mode };
     let chunks: Vec<Vec<u8>> = match mode {
         3 => {
@@ -888,6 +925,33 @@ pub fn fam_resize(r: &mut Rng) -> Case {
             p_lines(r, &b, &mut lines);
         }
     }
+    if !resizing && r.chance(1, 5) {
+        // rows in the history at the old width, a wider screen, a row filled to the new right edge
+        // (pending wrap), then a scrolled-back view: the view row under the cursor is narrower than
+        // the screen
+        let mut pre = vec![];
+        for i in 0..(u64::from(d.rows) + 2) {
+            pre.extend(format!("r{i}\r\n").as_bytes());
+        }
+        lines.push(format!("P {}", hex(&pre)));
+        let nc = d.cols + 1 + r.below(4) as u16;
+        lines.push(format!("SIZE {} {}", d.rows, nc));
+        d = Dim { rows: d.rows, cols: nc };
+        let row = 1 + r.below(u64::from(d.rows));
+        let mut fill = format!("\x1b[{row};1H").into_bytes();
+        for _ in 0..nc.min(200) {
+            fill.push(b'q');
+        }
+        if r.chance(1, 2) {
+            fill.extend(b"\x1b[1K"); // the last cell becomes empty again, the cursor stays pending
+        }
+        lines.push(format!("P {}", hex(&fill)));
+        lines.push(format!("SB {}", 1 + r.below(u64::from(d.rows) + 2)));
+        observers_all(&mut lines);
+        lines.push(format!("ROWSF 0 {}", d.cols));
+        lines.push("VIEWS".into());
+        return Case { lines };
+    }
     // the classic hazards: DECRC, leaving the alternate screen, writing at the right edge
     let tail = *r.pick(&["\x1b8x", "\x1b[?1049lx", "\x1b[?47lx", "\x1b[999Cxy", "\x1b[X\x1b[T", "\x1b[P\x1b[@", "\x1b[L\x1b[M"]);
     lines.push(format!("P {}", hex(tail.as_bytes())));
@@ -901,7 +965,20 @@ pub fn fam_csi(r: &mut Rng) -> Case {
     let (d, _cap, nl) = new_line(r, 1, false);
     let mut lines = vec![nl];
     let f = Feat { alt: r.chance(1, 5), ris: false, region: true, osc: false, garbage: false, modes: false, resize_csi: false };
-    let b = gen_stream_n(r, d, 10, &f);
+    let mut b = gen_stream_n(r, d, 10, &f);
+    let mut outside = false;
+    if d.rows >= 3 && r.chance(1, 6) {
+        // a region that is a proper part of the screen with the cursor outside it: the operation
+        // below (often a cursor movement) must ignore margins it did not start inside
+        let t = 2 + r.below(u64::from(d.rows) - 2);
+        let bt = (t + r.below(2)).min(u64::from(d.rows) - 1).max(t);
+        if t < bt || d.rows >= 4 {
+            let (t, bt) = if t < bt { (t, bt) } else { (t - 1, t) };
+            let row = if r.chance(2, 3) { bt + 1 + r.below(u64::from(d.rows) - bt) } else { 1 + r.below(t - 1) };
+            b.extend(format!("\x1b[{t};{bt}r\x1b[{row};{}H", 1 + r.below(u64::from(d.cols))).as_bytes());
+            outside = true;
+        }
+    }
     p_lines(r, &b, &mut lines);
     let mut scrolled = false;
     if _cap > 0 && r.chance(1, 3) {
@@ -938,8 +1015,14 @@ pub fn fam_csi(r: &mut Rng) -> Case {
     }
     match r.below(10) {
         0..=5 => {
-            let fin = *r.pick(&['@', 'A', 'B', 'C', 'D', 'E', 'F', 'G', 'J', 'K', 'L', 'M', 'P', 'S', 'T', 'X', 'd', 'H', 'r', 'm', 'h', 'l', 't', 'n', 'c', 'p', 'q', 's', 'u', 'Z', 'I', 'b', 'f', 'g']);
+            let mut fin = *r.pick(&['@', 'A', 'B', 'C', 'D', 'E', 'F', 'G', 'J', 'K', 'L', 'M', 'P', 'S', 'T', 'X', 'd', 'H', 'r', 'm', 'h', 'l', 't', 'n', 'c', 'p', 'q', 's', 'u', 'Z', 'I', 'b', 'f', 'g']);
+            if outside && r.chance(2, 3) {
+                fin = *r.pick(&['A', 'B', 'E', 'F', 'A', 'F', 'L', 'M', 'S', 'T', 'd']);
+            }
             let mut p = param(r, d);
+            if outside && r.chance(1, 2) {
+                p = (*r.pick(&["", "2", "3", "99", "65535"])).to_string();
+            }
             let q = param(r, d);
             let marker = *r.pick(&["", "", "", "?", ">", "!", " "]);
             if fin == 't' && r.chance(2, 3) {
@@ -1017,7 +1100,11 @@ pub fn fam_sgr(r: &mut Rng) -> Case {
                         b.extend(format!("\x1b[{k}{sep}5{sep}{idx}m").as_bytes())
                     }
                     1 => b.extend(format!("\x1b[{k}{sep}2{sep}{}{sep}{}{sep}{}m", r.below(300), r.below(260), r.below(256)).as_bytes()),
-                    _ => b.extend(format!("\x1b[{k}{sep}{}m", r.below(7)).as_bytes()),
+                    _ => {
+                        // an unknown colour-space selector, alone or followed by further parameters
+                        let tailp = *r.pick(&["", ";1", ";99", ";1;31", ";3;4;7", ";5;1"]);
+                        b.extend(format!("\x1b[{k}{sep}{}{tailp}m", r.below(10)).as_bytes())
+                    }
                 }
             }
             2 => {
@@ -1353,6 +1440,18 @@ fn table_ops() -> Vec<Vec<u8>> {
             v.push(format!("\x1b[{k}{sep}2{sep}1{sep}2m").into_bytes());
             v.push(format!("\x1b[{k}{sep}9{sep}1m").into_bytes());
         }
+    }
+    // extended colour with an unknown colour-space selector, alone or followed by more parameters
+    for k in [38u32, 48] {
+        for sel in [0u32, 1, 3, 4, 6, 7, 8, 9, 10, 255] {
+            for tail in ["", ";1", ";99", ";1;31", ";5;1", ";2;1;2;3"] {
+                v.push(format!("\x1b[{k};{sel}{tail}m").into_bytes());
+            }
+        }
+    }
+    // window operations with sub-parameters
+    for p in ["8:0", "8:1;3;4", "8;3:1;4:2", "8:;3;4", "8;3;4:9", "18", "7"] {
+        v.push(format!("\x1b[{p}t").into_bytes());
     }
     // DECSET / DECRST numbers 0..=2100
     for n in 0..=2100u32 {
